@@ -30,6 +30,7 @@ type Cfg struct {
 	PeerTS         bool // peer agrees to timestamps
 	PeerSACK       bool // peer agrees to SACK
 	PeerWnd        uint16
+	Cubic          bool // select the CUBIC congestion controller for the endpoint
 	RcvBuf, SndBuf int // 0 = default
 	MTU            uint32
 	V6             bool
@@ -186,6 +187,11 @@ func Dial(cfg Cfg) (*Conn, error) {
 	// let the small buffer sizes of the scripts really apply (the stack-wide minimum is 4096)
 	n.S.SetTransportProtocolOption(tcp.ProtocolNumber, tcp.ReceiveBufferSizeOption{Min: 64, Default: tcp.DefaultBufferSize, Max: 4 << 20})
 	n.S.SetTransportProtocolOption(tcp.ProtocolNumber, tcp.SendBufferSizeOption{Min: 64, Default: tcp.DefaultBufferSize, Max: 4 << 20})
+	if cfg.Cubic {
+		if e := n.S.SetTransportProtocolOption(tcp.ProtocolNumber, tcp.CongestionControlOption("cubic")); e != nil {
+			return nil, fmt.Errorf("cubic: %s", e.String())
+		}
+	}
 	c.WQ = &waiter.Queue{}
 	ep, err := n.S.NewEndpoint(tcp.ProtocolNumber, np, c.WQ)
 	if err != nil {
